@@ -136,7 +136,7 @@ class Verifier(Executor):
         g = dict(st.ghost)
         for gk in list(g) + [n[6:] for n in (only_names or ()) if n.startswith("ghost:")]:
             if only_names is not None and "ghost:" + gk not in only_names: continue
-            if gk.startswith("count:"):
+            if gk.startswith(("count:", "counttrue:")):
                 nv = S.fresh("cnt", z3.IntSort())
                 st = st.fact(nv >= g.get(gk, z3.IntVal(0)))
                 g[gk] = nv
@@ -210,8 +210,12 @@ class Verifier(Executor):
         self.vc(f"{label}.invariant_on_entry", st, inv_at(st, z3.IntVal(0)))
         # (2) write set by dry run
         i = S.fresh("_i", z3.IntSort())
+        def tick(st_x):          # ghost: total number of iterations of this loop started so far (over all its executions)
+            g = dict(st_x.ghost); key = f"count:__iter{lk}"
+            g[key] = g.get(key, z3.IntVal(0)) + 1
+            return st_x.but(ghost=g)
         def body_runner(st_b, end):
-            st_b = st_b.assume(z3.And(i >= 0, i < n))
+            st_b = tick(st_b.assume(z3.And(i >= 0, i < n)))
             st_b = st_b.bind(f"_i{lk}", I(i)).bind(f"_n{lk}", I(n)).bind(f"_it{lk}", tsq[-1][1])
             bind_targets(st_b, i)(tsq, st_b, lambda st_c: self.ex(s.body, st_c, end))
         refs, names = self.write_set(body_runner, st)
@@ -219,7 +223,7 @@ class Verifier(Executor):
         names -= {t.id for t, _ in tsq if isinstance(t, ast.Name)}
         # (3) an arbitrary iteration preserves the invariant
         st_h = self.havoc_all(st, only_refs=refs, only_names=names)
-        st_i = st_h.assume(z3.And(i >= 0, i < n)).assume(inv_at(st_h, i))
+        st_i = tick(st_h.assume(z3.And(i >= 0, i < n)).assume(inv_at(st_h, i)))
         st_i = st_i.bind(f"_i{lk}", I(i)).bind(f"_n{lk}", I(n)).bind(f"_it{lk}", tsq[-1][1])
         after: List[St] = []
         def body_end(st2):
@@ -481,6 +485,24 @@ def prove_vc(axioms, hyps, goal):
     gl = gs.children() if z3.is_and(gs) else [gs]
     if all(g.get_id() in have or z3.is_true(g) for g in gl):
         return prover.Result("unsat", "syntactic", 0.0), 0.0
+    # an existential goal: try the obvious witnesses first (keys written by Store terms of the goal) -- any instance
+    # that is provable proves the goal
+    if z3.is_quantifier(goal) and goal.is_exists() and goal.num_vars() == 1:
+        vs_sort = goal.var_sort(0)
+        cands, todo, seen = [], [goal.body()], set()
+        while todo and len(cands) < 6:
+            x = todo.pop()
+            if x.get_id() in seen: continue
+            seen.add(x.get_id())
+            if z3.is_app(x):
+                if x.decl().kind() == z3.Z3_OP_STORE and x.arg(1).sort() == vs_sort and not _has_var(x.arg(1)):
+                    if all(not z3.eq(x.arg(1), c) for c in cands): cands.append(x.arg(1))
+                todo.extend(x.children())
+        for c in cands:
+            inst = z3.substitute_vars(goal.body(), c)
+            r, t0 = prove_vc(axioms, hyps, inst)
+            if r.proved:
+                return r, t0
     axioms = list(axioms) + S.lifted_axioms_for(list(hyps) + [goal])
     # small, goal-directed hypothesis sets first (sound: fewer hypotheses); the full VC last.  The full set can
     # drown the instantiation engine in type invariants and stale path conditions the goal does not touch.
@@ -504,6 +526,18 @@ def prove_vc(axioms, hyps, goal):
             return r2, t
     r = prover.check_valid(axioms + list(hyps), goal, rlimit=PYVC_RLIMIT, cvc5_timeout_s=10)
     return r, t + r.time_s
+
+
+def _has_var(e):
+    todo, seen = [e], set()
+    while todo:
+        x = todo.pop()
+        if x.get_id() in seen: continue
+        seen.add(x.get_id())
+        if z3.is_var(x): return True
+        if z3.is_app(x): todo.extend(x.children())
+        elif z3.is_quantifier(x): pass        # bound variables inside a closed lambda are fine
+    return False
 
 
 def _symbols(e, cache):
